@@ -30,8 +30,9 @@ func checkC18(w *World, r *Report) {
 	for _, ci := range findCalls(run, func(n string, _ *ssa.CallCommon) bool { return strings.HasSuffix(n, "TaskCompiler).CompileTask") }) {
 		cf := ci.Common().StaticCallee()
 		a := ci.Common().Args
-		env := w.AP(a[paramIndex(cf, "env")])
-		vars := w.AP(a[paramIndex(cf, "vars")])
+		// (a helper with one return statement that merges the layers is seen through)
+		env := w.APThrough(a[paramIndex(cf, "env")])
+		vars := w.APThrough(a[paramIndex(cf, "vars")])
 		okEnv := strings.HasPrefix(env, "recv.env.Merge(") && strings.HasSuffix(env, ".Env).With(\"TASK_NAME\",arg0.Name).Merge(arg0.Env)") && strings.Contains(env, "contextForTask(recv,arg0)#0.Env")
 		r.Check(okEnv, "order.task-env", FuncName(run)+": environment of the compiled task", w.InstrPos(ci), "runner env ← context env ← TASK_NAME ← task env (each later layer wins)", "the task environment is "+env+": expected runnerEnv.Merge(contextEnv).With(\"TASK_NAME\", name).Merge(taskEnv) — the precedence task > pipeline is broken or TASK_NAME can be overridden the wrong way")
 		r.Check(vars == "recv.variables.Merge(arg0.Variables)", "order.task-vars", FuncName(run)+": variables of the compiled task", w.InstrPos(ci), "runner variables merged with the task's (the job's) variables", "the task variables are "+vars+", expected recv.variables.Merge(arg0.Variables): a script is not rendered with exactly the variables of its own job")
@@ -40,7 +41,7 @@ func checkC18(w *World, r *Report) {
 	for _, name := range []string{"before", "after"} {
 		for _, ci := range findCalls(run, func(n string, _ *ssa.CallCommon) bool { return strings.HasSuffix(n, "TaskRunner)."+name) }) {
 			a := ci.Common().Args
-			env := w.AP(a[len(a)-2])
+			env := w.APThrough(a[len(a)-2])
 			r.Check(strings.HasSuffix(env, ".Merge(arg0.Env)") && strings.Contains(env, "TASK_NAME"), "order.before-after-env", FuncName(run)+": environment of "+name+" commands", w.InstrPos(ci), "the same merged environment", "the "+name+" commands get "+env)
 		}
 	}
@@ -50,11 +51,8 @@ func checkC18(w *World, r *Report) {
 	if ex := w.FuncByName("taskctl", "(*PgidExecutor).Execute"); ex != nil {
 		okList, okRender := false, false
 		desc := ""
-		allInstrs(ex, func(in ssa.Instruction) {
-			c, ok := in.(*ssa.Call)
-			if !ok {
-				return
-			}
+		// (the calls of Execute and of the module helpers it delegates to, rendered in Execute's terms)
+		w.deepCalls(ex, 2, func(c *ssa.Call) {
 			switch {
 			case strings.HasSuffix(calleeName(&c.Call), "expand.ListEnviron"):
 				desc = w.APThrough(c.Call.Args[0])
@@ -175,14 +173,49 @@ func checkC18(w *World, r *Report) {
 		isSet := func(n string, c *ssa.CallCommon) bool { return c.IsInvoke() && c.Method.Name() == "Set" }
 		vfn := gb
 		var hc *ssa.Call
+		// chain: the calls that lead from the graph builder to vfn (chain[i] lies in chainFn[i]; chainFn[0] = gb)
+		var chain []*ssa.Call
+		chainFn := []*ssa.Function{gb}
 		if len(findCalls(gb, isSet)) == 0 {
-			allInstrs(gb, func(in ssa.Instruction) {
-				if c, ok := in.(*ssa.Call); ok {
-					if g := c.Call.StaticCallee(); g != nil && g.Blocks != nil && w.InModule(g) && len(findCalls(g, isSet)) > 0 {
-						vfn, hc = g, c
+			var search func(f *ssa.Function, d int) bool
+			search = func(f *ssa.Function, d int) bool {
+				found := false
+				allInstrs(f, func(in ssa.Instruction) {
+					if found {
+						return
 					}
-				}
-			})
+					c, ok := in.(*ssa.Call)
+					if !ok {
+						return
+					}
+					g := c.Call.StaticCallee()
+					if g == nil || g.Blocks == nil || !w.InModule(g) || g == f {
+						return
+					}
+					if len(findCalls(g, isSet)) > 0 {
+						chain = append(chain, c)
+						chainFn = append(chainFn, g)
+						vfn = g
+						found = true
+						return
+					}
+					if d < 2 {
+						chain = append(chain, c)
+						chainFn = append(chainFn, g)
+						if search(g, d+1) {
+							found = true
+							return
+						}
+						chain = chain[:len(chain)-1]
+						chainFn = chainFn[:len(chainFn)-1]
+					}
+				})
+				return found
+			}
+			search(gb, 0)
+			if len(chain) > 0 {
+				hc = chain[0]
+			}
 		}
 		vname := FuncName(vfn)
 		sets := findCalls(vfn, isSet)
@@ -214,8 +247,12 @@ func checkC18(w *World, r *Report) {
 				errRet := blockReturns(guard.If.Block().Succs[guard.SuccTrue], func(rt *ssa.Return) bool { return len(rt.Results) == 2 && !isNilConst(rt.Results[1]) })
 				okG = !res.Found && errRet
 				// the helper's error makes the graph builder fail
-				if okG && hc != nil {
-					tests := w.nilTests(gb, hc)
+				// (at every level of the call chain)
+				for i, c := range chain {
+					if !okG {
+						break
+					}
+					tests := w.nilTests(chainFn[i], c)
 					okG = len(tests) > 0
 					for _, t := range tests {
 						if !blockReturns(t.If.Block().Succs[1-t.OkSucc], func(rt *ssa.Return) bool { return len(rt.Results) == 2 && !isNilConst(rt.Results[1]) }) {
@@ -241,19 +278,19 @@ func checkC18(w *World, r *Report) {
 				return
 			}
 			idv := w.Resolve(sc.Call.Args[0])
-			if hc != nil {
-				// the helper's id parameter is the graph builder's
-				if p, ok := idv.(*ssa.Parameter); ok && p.Parent() == vfn && paramIdxOf(p) < len(hc.Call.Args) {
-					idv = w.Resolve(hc.Call.Args[paramIdxOf(p)])
+			// the helper's id parameter is what the level above passes, up to the graph builder
+			for k := len(chain) - 1; k >= 0; k-- {
+				if p, ok := idv.(*ssa.Parameter); ok && p.Parent() == chainFn[k+1] && paramIdxOf(p) < len(chain[k].Call.Args) {
+					idv = w.Resolve(chain[k].Call.Args[paramIdxOf(p)])
 				}
 			}
-			if p, ok := idv.(*ssa.Parameter); ok && p.Parent() == gb && paramIdxOf(p) == 0 {
+			if p, ok := idv.(*ssa.Parameter); ok && p.Parent() == gb && paramIdxOf(p) == 0 && !strings.HasSuffix(shapeString(p.Type()), "PipelineJob") {
 				okID = true
 			}
-			// … or the ID field of the builder's job parameter
+			// … or the ID field of the builder's job parameter (or receiver)
 			if ap := w.AP(idv); strings.HasSuffix(ap, ".ID") {
-				for i, prm := range gb.Params {
-					if ap == fmt.Sprintf("arg%d.ID", i) && strings.HasSuffix(shapeString(prm.Type()), "PipelineJob") {
+				for _, prm := range gb.Params {
+					if ap == w.AP(prm)+".ID" && strings.HasSuffix(shapeString(prm.Type()), "PipelineJob") {
 						okID, idFromJob = true, true
 					}
 				}
@@ -397,3 +434,38 @@ func (w *World) FuncByNameIn(p *ssa.Package, name string) *ssa.Function {
 }
 
 var _ = fmt.Sprint
+
+// deepCalls visits the calls of fn and of the module functions fn calls statically (depth ≤ max);
+// during a visit inside a helper its parameters are bound to what the call site passes, so access
+// paths are rendered in fn's terms.
+func (w *World) deepCalls(fn *ssa.Function, max int, visit func(c *ssa.Call)) {
+	saved := w.paramEnv
+	defer func() { w.paramEnv = saved }()
+	var rec func(f *ssa.Function, env map[*ssa.Parameter]ssa.Value, d int)
+	rec = func(f *ssa.Function, env map[*ssa.Parameter]ssa.Value, d int) {
+		allInstrs(f, func(in ssa.Instruction) {
+			c, ok := in.(*ssa.Call)
+			if !ok {
+				return
+			}
+			w.paramEnv = env
+			visit(c)
+			g := c.Call.StaticCallee()
+			if g == nil || g.Blocks == nil || !w.InModule(g) || g == f || d >= max {
+				return
+			}
+			sub := map[*ssa.Parameter]ssa.Value{}
+			for k, v := range env {
+				sub[k] = v
+			}
+			for i, p := range g.Params {
+				if i < len(c.Call.Args) {
+					sub[p] = w.Resolve(c.Call.Args[i])
+				}
+			}
+			rec(g, sub, d+1)
+			w.paramEnv = env
+		})
+	}
+	rec(fn, saved, 0)
+}
